@@ -78,6 +78,7 @@ class Generator:
         self.sha: Dict[str, str] = {}
         self.from_impls: List[str] = []
         self.pending_after = []
+        self.canary_fns = set()
         self.field_types: Dict[str, Dict[str, str]] = {}
 
     # ------------------------------------------------------------------ emit helpers
@@ -412,6 +413,7 @@ class Generator:
         info = FnInfo(addr=addr, status=status, src_file=rel, src_line=line_of(it.head_start),
                       tags=(c.tags if c else []), bounded=(c.bounded if c else None), has_contract=bool(c))
         info.bodytags = dict(c.bodytags) if c else {}
+        info.canary = addr in self.canary_fns
         pre = '\n' + ''.join(a + '\n' for a in attrs)
         if c:
             pre += ''.join(a + '\n' for a in c.attrs)
@@ -688,10 +690,14 @@ class Generator:
                 spec_segs.append(Seg('\n    requires\n', 'gen'))
                 for cl in req:
                     spec_segs.append(self.clause_seg(cl, addr))
-            if ens:
+            canary = getattr(self, 'canary', False) and status == 'verify' and body_tok is not None
+            if ens or canary:
                 spec_segs.append(Seg('\n    ensures\n', 'gen'))
                 for cl in ens:
                     spec_segs.append(self.clause_seg(cl, addr))
+                if canary:
+                    spec_segs.append(Seg('        false,\n', 'clause', oid='CANARY:' + short(addr), tags=(), ckind='ensures', addr=addr))
+                    self.canary_fns.add(addr)
             if c.decreases:
                 spec_segs.append(Seg('\n    decreases %s\n' % c.decreases, 'gen'))
             if spec_segs:
